@@ -21,13 +21,18 @@ EXTRA_PROPS = ['KalmanBridge']   # refinement bridge from the executable QMat mo
 LEVEL = "proof"
 MANIFEST = {
     "category": "proof",
-    "text": ("Partial (DESIGN section 8): the smoother = conditional expectation is not proved. Lean 4 theorems over Mathlib matrices, any "
+    "text": ("Partial only in the sense of DESIGN section 8 (floating point, LAPACK, the output store and the model-to-abstract-recursion tie "
+             "are validated, not proved); filter, likelihood AND smoother are proved. Lean 4 theorems over Mathlib matrices, any "
              "commutative ring with 2 invertible, all dimensions, every horizon N, any missing-data pattern (period-dependent row types): "
              "filter_is_conditioning -- the moments the filter hands to every period are prior mean + C S^-1 (Y - mu) and V - C S^-1 C' "
              "for the explicitly built stacked system (prior moments by the model's own moment recursion, proved to be the push-forward "
              "of the primitives' covariance through the model equations; S^-1 proved to be a genuine symmetric inverse, and unique); "
              "likelihood_is_stacked_density -- prod_t det F_t = det S_Y and sum_t pe'Fi pe = (Y-mu)' S_Y^-1 (Y-mu), so the reported value is "
-             "the stacked Gaussian negative log-density; the one-period lemmas (push-forward prediction, update = conditional moments, "
+             "the stacked Gaussian negative log-density; smoother_is_conditioning, smoother_mse_is_conditioning, "
+             "smoother_shocks_is_conditioning, smoother_mshocks_is_conditioning -- the backward recursion of one_step_back/smooth "
+             "(r, N, a2, Q2, u2, w2) returns the conditional mean and covariance of the state of period t, and the conditional means of "
+             "its transition and measurement shocks, given ALL rows observed in periods 0..N-1 (tracked-vector extension of the stacked "
+             "system; cross-covariances proved to be push-forwards); the one-period lemmas (push-forward prediction, update = conditional moments, "
              "sequential = joint conditioning via the Schur complement, block det / quadratic form); contributions sum to the total, empty "
              "periods contribute 0; variance-rescaling identities; the unknown-initial correction equals the run from the shifted initial "
              "mean in every period. The executable model (exact rationals, same operation structure as fords/kalmans.py incl. per-period "
